@@ -154,6 +154,15 @@ def check_case(case):
             ts, ms = thickness(tpat, n), materials(mpat, n)
             from compmech.composite.laminate import read_stack
             base = lams[(tpat, mpat, '0', 'perply')]
+            # the stack handed over as a numpy array of a narrow type (integer-valued angles): same laminate as the list of floats
+            if mpat == 'm6' and all(float(t) == int(t) and abs(t) < 128 for t in stack):
+                for dt in (np.int8, np.int16, np.int64, np.float32, np.float64):
+                    la = read_stack(np.array(stack, dtype=dt), plyts=list(ts), laminaprops=list(ms), offset=0.0)
+                    trans += 1
+                    gA, gB = np.asarray(la.ABDE, dtype=float), np.asarray(base.ABDE, dtype=float)
+                    if not np.all(np.isfinite(gA)) or np.abs(gA - gB).max() > 1e-13 * np.abs(gB).max():
+                        fails.append(fail('stack given as a numpy array of a narrow type gives other matrices than the same angles as Python floats', tpat=tpat,
+                                          mpat=mpat, dtype=np.dtype(dt).name, rel=float(np.nanmax(np.abs(gA - gB)) / np.abs(gB).max())))
             sc = rl.scales(stack, ts, ms, 0.0)
             # mirror stack -> B = 0
             sym = read_stack(list(stack) + list(stack)[::-1], plyts=ts + ts[::-1], laminaprops=ms + ms[::-1])
